@@ -678,3 +678,33 @@ def case_conv_auto_pad_dilations():
 
 
 CASES["conv_auto_pad_dilations"] = case_conv_auto_pad_dilations
+
+
+def case_softmax_old_opset():
+    """constant Softmax / LogSoftmax / Hardmax in an opset-11 model (2D-coercion semantics), compared on onnxruntime"""
+    import onnxruntime as ort
+    from onnxscript import optimizer
+
+    def ortrun(m, f):
+        so = ort.SessionOptions()
+        so.graph_optimization_level = ort.GraphOptimizationLevel.ORT_DISABLE_ALL
+        so.log_severity_level = 4
+        return ort.InferenceSession(m.SerializeToString(), so, providers=["CPUExecutionProvider"]).run(None, f)
+    bad = 0
+    for opn in ("Softmax", "LogSoftmax", "Hardmax"):
+        c = numpy_helper.from_array(np.arange(24, dtype=np.float32).reshape(2, 3, 4) / 10, "c")
+        g = helper.make_graph([helper.make_node(opn, ["c"], ["s"]), helper.make_node("Add", ["x", "s"], ["y"])], "g",
+                              [vi("x", TensorProto.FLOAT, [2, 3, 4])], [vi("y", TensorProto.FLOAT, [2, 3, 4])], [c])
+        m = helper.make_model(g, opset_imports=[helper.make_opsetid("", 11)], ir_version=7)
+        onnx.checker.check_model(m)
+        f = {"x": np.zeros((2, 3, 4), np.float32)}
+        a = ortrun(m, f)[0]
+        new = optimizer.optimize(m)
+        b = ortrun(new, f)[0]
+        if not np.allclose(a, b, atol=1e-6):
+            print(f"opset 11 {opn}(constant[2,3,4]) folded: nodes after {[n.op_type for n in new.graph.node]}; max |difference| {float(np.abs(a - b).max()):.4f}")
+            bad += 1
+    return bad
+
+
+CASES["softmax_old_opset"] = case_softmax_old_opset
